@@ -143,6 +143,8 @@ append = Contract(
                    ensures={"unchanged": "self.size == old.self.size and "
                             "len(self.data) == len(old.self.data)"}, keeps_state=True)],
     modifies=["self.size", "self.data", "self.goff"],
+    # called as every caller does: append(cmd, data, idx, *address, wkc=...)
+    options={"call": (["self", "cmd", "data", "idx", "*address"], ["wkc"])},
     canaries={"window_off_by_one":
               "result == (old.self.size + 10, old.self.size + 11 + len(data))"},
 )
